@@ -82,8 +82,8 @@ def draw_side(ctx, ch, L, pool, kspec, side, c, allow=('files', 'list', 'sig')):
 	if channel == 'sig':
 		path, ids = write_sigfile(ctx, pool, idxs, kspec, f'{side}-{c}.gs', int_ids=ch.flip(0.2, f'{L}.{side}intids'))
 		return dict(channel='sig', args=[opt[3], path], labels=ids, genomes=idxs, files=[], sig_kspec=kspec)
-	forms = [ch.pick(['plain', 'gz'], f'{L}.{side}f{i}') for i in range(n)]
-	paths = [pool.genomes[g][f] for g, f in zip(idxs, forms)]
+	forms = [ch.pick(['plain', 'gz', 'plain', 'gz', 'alias'], f'{L}.{side}f{i}') for i in range(n)]
+	paths = [pool.genomes[g][f] or pool.genomes[g]['plain'] for g, f in zip(idxs, forms)]
 	if channel == 'files':
 		args = []
 		for p in paths:
@@ -152,7 +152,7 @@ def scenario(ctx):
 	with load_signatures(world.gs) as dbs:
 		db_sigs = [np.array(dbs[i]) for i in range(len(dbs))]
 		db_ids = [str(x) for x in dbs.ids]
-	all_paths = [g['plain'] for g in pool.genomes] + [g['gz'] for g in pool.genomes]
+	all_paths = [g['plain'] for g in pool.genomes] + [g['gz'] for g in pool.genomes] + [g['alias'] for g in pool.genomes if g['alias']]
 	omp.set_threads(ch.int(1, 16, 'initial_threads'))
 	n_cmd = ch.int(6, 12, 'n_cmd')
 	for c in range(n_cmd):
@@ -184,7 +184,8 @@ def scenario(ctx):
 		else:
 			args += ['--square']
 		args += ['--progress' if progress else '--no-progress'] + ([] if cores is None else ['-c', str(cores)])
-		res, h = run_cli(ctx, args, knobs, short_paths=all_paths, short_seed=ch.subseed(L + '.short'))
+		cwd = pool.decoy_cwd if ch.flip(0.5, L + '.decoy_cwd') else None
+		res, h = run_cli(ctx, args, knobs, short_paths=all_paths, short_seed=ch.subseed(L + '.short'), cwd=cwd, ch=ch, label=L)
 		ctx.stats['executions'] += 1
 		order = list(h.sim.completion_order)
 		text = open(out).read() if os.path.exists(out) else ''
@@ -232,7 +233,7 @@ def scenario(ctx):
 					rargs = ['--rl', q['args'][1], '--rdir', q['args'][3]]
 				knobs2 = Knobs(ch, L + '.twin', with_chunk=False)
 				args2 = ['dist', '-o', out2] + kargs + q['args'] + rargs + ['--no-progress'] + ([] if cores is None else ['-c', str(cores)])
-				res2, h2 = run_cli(ctx, args2, knobs2, short_paths=all_paths, short_seed=ch.subseed(L + '.short2'))
+				res2, h2 = run_cli(ctx, args2, knobs2, short_paths=all_paths, short_seed=ch.subseed(L + '.short2'), cwd=cwd, ch=ch, label=L + '.twin')
 				ctx.stats['executions'] += 1
 				text2 = open(out2).read() if os.path.exists(out2) else ''
 				ctx.log('twin', status=res2.status, out=blob_hash(text2))
